@@ -1709,6 +1709,9 @@ def op_nav(w, op):
             elif prim == "restrict_self":
                 # restrict the very wrapper object that was (possibly) navigated from before
                 fl = FLAG_SETS[arg % len(FLAG_SETS)]
+                missing = [f for f in ("read_only", "skel_only", "local_only") if f not in src_flags]
+                if missing and arg % 2:
+                    fl = [missing[(arg // 2) % len(missing)]]  # a flag the node does not carry yet
                 node.restrict(**{f: True for f in fl})
                 h["flags"] = flags_of(node)
                 if "local_only" in fl:
@@ -2033,7 +2036,11 @@ class ActorGen:
                     self.plan.append({"op": "nav", "actor": actor, "h": -1, "prim": "restrict_self", "arg": g.randrange(50)})
                 self.plan.append({"op": "attempt", "actor": actor, "h": -1, "kind": g.choice(["closure", "sweep_M", "sweep_R", "sweep_U"]), "arg": g.randrange(50)})
             p = g.choice(sh.all()) if g.random() < 0.8 else "/"
-            return {"op": "grant", "actor": actor, "path": p, "flags": g.choice(FLAG_SETS + [[]]), "container": g.random() < 0.5}
+            deep = sorted(q for q in sh.groups() if q != "/" and any(x.startswith(q.rstrip("/") + "/") and x[len(q) + 1 :].count("/") >= 1 for x in sh.nodes))
+            if deep and g.random() < 0.4:
+                p = g.choice(deep)  # a group with descendants two or more levels down
+            flags = g.choice(FLAG_SETS + [[]]) if g.random() < 0.7 else ["local_only"]
+            return {"op": "grant", "actor": actor, "path": p, "flags": flags, "container": g.random() < 0.5}
         if roll < 0.5:
             self.n[actor] += 1
             return {"op": "nav", "actor": actor, "h": g.randrange(1000), "prim": g.choice(NAV_PRIMS), "arg": g.randrange(50)}
